@@ -1,8 +1,11 @@
 """Entry point:  python -m harness.main C06 [--tier quick|thorough] [--replay file]"""
 import argparse
+import atexit
 import importlib
 import os
+import shutil
 import sys
+import tempfile
 import traceback
 
 
@@ -12,18 +15,31 @@ def main():
     ap.add_argument("--tier", default=os.environ.get("VERIF_TIER", "quick"), choices=["quick", "thorough"])
     ap.add_argument("--replay", default=None)
     a = ap.parse_args()
+    # scratch: private basis-set directory (never ~/.cache/PyAbel, never under /repo or /verif), removed at exit
+    scratch = tempfile.mkdtemp(prefix=f"pyabel_verif_{a.prop}_")
+    atexit.register(shutil.rmtree, scratch, ignore_errors=True)
+    os.environ["VERIF_SCRATCH"] = scratch
+    os.environ["XDG_CACHE_HOME"] = os.path.join(scratch, "xdg")
     try:
         mod = importlib.import_module(f"harness.props.{a.prop.lower()}")
-    except ModuleNotFoundError:
-        print(f"no check for {a.prop}", file=sys.stderr)
+    except ModuleNotFoundError as e:
+        print(f"no check for {a.prop}: {e}", file=sys.stderr)
         return 2
+    real_stdout = sys.stdout
     try:
+        import abel
+        abel.transform.set_basis_dir(os.path.join(scratch, "basis"))
+        # the library prints progress messages; keep the check's stdout for VIOLATION / KNOWN-FINDING lines only
+        sys.stdout = open(os.devnull, "w")
         if a.replay:
+            sys.stdout = real_stdout
             return mod.replay(a.replay)
         return mod.run(a.tier)
     except Exception:
         traceback.print_exc()
         return 2
+    finally:
+        sys.stdout = real_stdout
 
 
 if __name__ == "__main__":
